@@ -37,6 +37,10 @@ class BudgetExceeded(BaseException):
     pass
 
 
+# callables documented to pass an argument object through ("returns Epoch object corresponding to the input
+# date": an Epoch given to check_input_date is returned as it is)
+PASS_THROUGH = ('Epoch.check_input_date',)
+
 CANCEL_EXC = {'SimCancelled': SimCancelled, 'KeyboardInterrupt': KeyboardInterrupt, 'MemoryError': MemoryError}
 OK_EXC = ('TypeError', 'ValueError', 'ZeroDivisionError')
 
@@ -67,6 +71,9 @@ class Sim(object):
         self.tracer = self._make_tracer(self.S, None)
         self.sched_keys = set()
         self.point_lines = set()
+        self.alias_names = {}
+        self.recipes = {}         # id(obj) -> [(entry name, cloned call)] for objects without a repr
+        self.op_recipe = {}       # op id -> recipe of its receiver at call time
         self.func_log = None      # calibration only: pymeeus functions entered by the current op
         self.funcs_by_name = {}
         self.module_reported = False
@@ -217,6 +224,8 @@ class Sim(object):
                 return None
         if ctx.recv_inf is not None and any(a is recv for a in args + list(kwargs.values())):
             return None
+        if recv is not None and id(recv) in self.recipes and not eff.startswith('mutator'):
+            self.op_recipe[op['id']] = list(self.recipes[id(recv)])
         ctx.pre = [(o, snap(o)) for o in ctx.reach]
         try:
             ctx.clones = CLONE((recv, args, kwargs))
@@ -419,6 +428,8 @@ class Sim(object):
         elif kind == 'cancel':
             self.count('cancelled')
             self.module_check(op, 'after-cancel')
+        if ctx.recv_inf is not None and kind != 'ok':
+            self.recipes.pop(id(ctx.recv), None)
         if ctx.recv_inf is not None and kind in ('cancel', 'budget'):
             # a documented mutator was interrupted: its receiver may be half-set, which C20 does
             # not forbid, and no caller would go on using it -> the object leaves the pool
@@ -453,6 +464,21 @@ class Sim(object):
                 if inf is not None and inf.const and val is not was:
                     self.count('probe.const_alias_rebound')
             return
+        # does the result (or an element of a result tuple) ALIAS one of the call's own arguments?
+        res_objs = [val] + (list(val[:30]) if isinstance(val, (tuple, list)) else [])
+        for x in res_objs:
+            if kind_of(x) in (None, 'list', 'tuple'):
+                continue
+            if any(x is a for a in ctx.reach):
+                self.count('probe.result_is_argument')
+                self.alias_names[op['name']] = self.alias_names.get(op['name'], 0) + 1
+                if not eff.startswith('mutator') and op['name'].split('#')[0] not in PASS_THROUGH:
+                    # O3.alias: a non-mutating call handed one of its own arguments back as (part of) its
+                    # result: result and argument are one mutable object, so a documented mutator applied to
+                    # either silently changes the other (same defect class as a cache handing out a shared
+                    # object, with the caller's argument in the role of the cache)
+                    self.violate('O3.alias', op, {'result_is_argument_of_kind': kind_of(x),
+                                                   'value': snap(x)})
         items = [(0, val)]
         if isinstance(val, (tuple, list)):
             items = [(1 + i, x) for i, x in enumerate(val[:30])]
@@ -478,6 +504,13 @@ class Sim(object):
                     inf.minor = (float(ctx.args[1]), float(ctx.args[5].jde()))
             except Exception:
                 pass
+            # construction recipe (the object has no repr to rebuild a twin from): constructor arguments as
+            # cloned at the time, then every documented mutator applied since
+            if inf is not None:
+                if op['name'] == 'Minor.__init__':
+                    self.recipes[id(target)] = [(op['name'], ctx.clones)]
+                elif id(target) in self.recipes:
+                    self.recipes[id(target)].append((op['name'], ctx.clones))
 
     # ------------------------------------------------------------ engines H / N
     def run_sequential(self):
